@@ -1359,6 +1359,7 @@ bool BW_MidiSequencer::processEvents(bool isSeek)
                 }
 
                 m_currentPosition = s.startPosition;
+                m_currentPosition.wait = rowBeginPosition.wait; // keep the time owed now, not the one saved at the loop start
                 m_loop.skipStackStart = true;
 
                 for(uint8_t i = 0; i < 16; i++)
@@ -1373,6 +1374,7 @@ bool BW_MidiSequencer::processEvents(bool isSeek)
                 if(s.loops > 0)
                 {
                     m_currentPosition = s.startPosition;
+                    m_currentPosition.wait = rowBeginPosition.wait;
                     m_loop.skipStackStart = true;
 
                     for(uint8_t i = 0; i < 16; i++)
@@ -1419,11 +1421,13 @@ bool BW_MidiSequencer::processEvents(bool isSeek)
         if(m_loop.temporaryBroken)
         {
             m_currentPosition = m_trackBeginPosition;
+            m_currentPosition.wait = rowBeginPosition.wait;
             m_loop.temporaryBroken = false;
         }
         else if(m_loop.loopsCount < 0 || m_loop.loopsLeft >= 1)
         {
             m_currentPosition = m_loopBeginPosition;
+            m_currentPosition.wait = rowBeginPosition.wait;
             if(m_loop.loopsCount >= 1)
                 m_loop.loopsLeft--;
         }
